@@ -28,7 +28,7 @@ pub fn run(which: Which, tier: Tier) -> ! {
         Which::C13 => "C13",
     };
     let ctx = Ctx::new(id, tier);
-    let budget = Instant::now() + Duration::from_secs(tier.pick(55, 2700));
+    let budget = Instant::now() + Duration::from_secs(crate::ctx::budget_secs(tier.pick(55, 2700)));
     let configs: Vec<(StreamSys, Value)> = match which {
         Which::C11 => [0u64, 1, 4, 5, 1 << 48]
             .into_iter()
